@@ -481,6 +481,9 @@ class RawAlgorithmsMixIn:
         if isinstance(r, numpy.ndarray) and r.ndim == 0:
             r = r[()]    # a zero-dimensional array is the scalar it holds
 
+        if isinstance(r, (float, numpy.floating)) and r >= 0 and numpy.isfinite(r) and r == int(r):
+            r = int(r)   # x**2.0 is the polynomial x**2, also where x_0 = 0
+
         if isinstance(r, (int, numpy.integer)) and r >= 0:
             if r == 0:
                 y_data[...] = 0.
@@ -537,6 +540,9 @@ class RawAlgorithmsMixIn:
 
         if isinstance(r, numpy.ndarray) and r.ndim == 0:
             r = r[()]
+
+        if isinstance(r, (float, numpy.floating)) and r >= 0 and numpy.isfinite(r) and r == int(r):
+            r = int(r)
 
         if isinstance(r, (int, numpy.integer)) and r >= 0:
 
